@@ -335,7 +335,7 @@ def const_eval(n, env):
         if a is None or b is None:
             return None
         import operator as o
-        f = {'==': o.eq, '!=': o.ne, '<': o.lt, '>': o.gt, '<=': o.le, '>=': o.ge, '+': o.add, '-': o.sub}.get(op)
+        f = {'==': o.eq, '!=': o.ne, '<': o.lt, '>': o.gt, '<=': o.le, '>=': o.ge, '+': o.add, '-': o.sub, '*': o.mul}.get(op)
         return int(f(a, b)) if f else None
     return None
 
@@ -422,4 +422,20 @@ def explore_paths(func, start, env, want, edge_ok=None, limit=4000, force=None):
                 continue
             walk(s, 0, env, events, seen)
     walk(start[0], start[1], dict(env), [], frozenset())
+    return out
+
+
+def with_helpers(prog, f, depth=3):
+    """f followed by the file-local (static) functions it calls, transitively: the unit a maintainer may split a
+    function into without changing what it does.  Rules tied to "the function that does X" look at all of them."""
+    out, todo = [f], [(f, 0)]
+    while todo:
+        g, d = todo.pop(0)
+        if d >= depth:
+            continue
+        for c in g.calls():
+            t = prog.func(c.get('callee'), g.tu) if c.get('callee') else None
+            if t is not None and t.internal and t not in out and not t.cfg_error:
+                out.append(t)
+                todo.append((t, d + 1))
     return out
